@@ -103,7 +103,14 @@ def rounding_boundary_scalar(rng, r, es):
     cmax = e  # c ranges up to about e
     m = rng.randrange(1, max(2, cmax >> 64))
     c = rng.choice([m << 64, (m << 64) - 1, (m << 64) + 1, (m << 64) - 2, ((m << 64) | (rng.getrandbits(32) << 32)) - rng.randrange(2),
-                    (rng.randrange(1, max(2, cmax >> 32)) << 32) - rng.randrange(2)])
+                    (rng.randrange(1, max(2, cmax >> 32)) << 32) - rng.randrange(2),
+                    # several low limbs all ones / all zero (carries that ripple through more than one limb of the quotient)
+                    (rng.randrange(1, max(2, cmax >> 96)) << 96) - rng.randrange(3),
+                    (rng.randrange(1, max(2, cmax >> 96)) << 96) - rng.randrange(3),
+                    (rng.randrange(1, max(2, cmax >> 64)) << 64) - rng.randrange(3),
+                    (1 << rng.randrange(33, max(34, cmax.bit_length()))) - rng.randrange(3)])
+    if c <= 0:
+        c = (1 << 64) - 1
     f = rng.choice([-0.4999, -0.25, 0.0, 0.25, 0.4999, -0.5, 0.5])
     k = int((c + f) * r) // e if f else (c * r + e // 2) // e
     k += rng.randrange(-3, 4)
